@@ -552,13 +552,15 @@ AssocPrecedesOwner ==
             /\ SubSeq(out[i + 1].lab, 2, 6) = SubSeq(out[i].lab, 2, 6)
             /\ SubSeq(out[i + 1].lab, 1, 1) # "A"
 
-(* difference statistics: one bit wider than the owner, reference -2^width (before 201/207 effects) *)
+(* difference statistics: one bit wider than the owner, reference -2^width - under the operators in
+   force WHEN THE MARKER IS PROCESSED (an action property: the registers may change afterwards) *)
 DiffStatsParams ==
-    \A i \in 1..Len(out) :
-        (SubSeq(out[i].lab, 1, 1) = "D" /\ out[i].t = "num" /\ reg.dw = 0 /\ reg.bsrY = 0) =>
-            LET oid == ToInt(out[out[i].link].lab) IN
-            /\ out[i].w = BWidth(oid) + 1
-            /\ out[i].ref = WNeg(FromBits(<<1>> \o Zeros(BWidth(oid))))
+    [][(Len(out') = Len(out) + 1 /\ SubSeq(out'[Len(out')].lab, 1, 1) = "D" /\ out'[Len(out')].t = "num") =>
+          LET e == out'[Len(out')]
+              oid == ToInt(out'[e.link].lab)
+          IN /\ e.w = BWidth(oid) + 1 + reg.dw + W207(reg.bsrY)
+             /\ e.ref = WMulPow10(WNeg(FromBits(<<1>> \o Zeros(BWidth(oid)))), reg.bsrY)
+             /\ e.sc = BScale(oid) + reg.ds + reg.bsrY]_vars
 
 (* the meaning attached to an attribute is the right kind of element and precedes it *)
 MeaningIsRightElement ==
